@@ -15,6 +15,9 @@ ScrollKeys == "402000000 3843078f800d001 feffffdfffefffff fffffffffffffffe"     
 FewKeys == "10000000000000 0"                                                  \* a power button
 MediaKeys == "3e000b00000000 0 0 0"                                            \* video bus: several keys, no letters
 
+PadKeys == "fa0000001000cffe"                                                   \* a 20-key macro pad, exactly at the tool's 20-key threshold, with key 63 (F5, the top bit of a word)
+MmoKeys == "6003800000000 0 fffffffffffffffe"                                  \* macro-key interface of an MMO mouse: SCROLLDOWN above an EMPTY mask word
+
 Absent == "-"
 E(kind, name, sysfs, ev, key) == [kind |-> kind, name |-> name, sysfs |-> sysfs, ev |-> ev, key |-> key]
 Kinds == <<
@@ -35,7 +38,9 @@ Kinds == <<
   \* a name padded with a blank inside the quotes (the blank belongs to the name the kernel reports)
   E("padded-name",     "SINO WEALTH Gaming KB ",        "/devices/pci0000:00/usb1/1-6/input/input17", "120013", FullKeys),
   \* on the edge of the mouse heuristic: "Mouse" in the name, full key map, no EV line of its own
-  E("no-ev-mouse",     "Razer Mouse",                   "/devices/pci0000:00/usb1/1-7/input/input18", Absent, FullKeys)
+  E("no-ev-mouse",     "Razer Mouse",                   "/devices/pci0000:00/usb1/1-7/input/input18", Absent, FullKeys),
+  E("macro-pad-20",    "Macro Pad",                     "/devices/pci0000:00/usb1/1-8/input/input19", "120013", PadKeys),
+  E("mmo-mouse-macro", "MMO Gaming Device",             "/devices/pci0000:00/usb1/1-9/input/input22", "100013", MmoKeys)
 >>
 KindIds == 1..Len(Kinds)
 
@@ -63,13 +68,20 @@ IsVirtual(e) == e.sysfs \in {"/devices/virtual/input/input20", "/devices/virtual
 
 \* the heuristic of the tool, per entry (informative: a disagreement is DRIFT, the heuristic is not a listed property)
 Keyboardish(e) ==
-  LET full == e.key \in {FullKeys, MouseKeys, ScrollKeys}
-      scroll == e.key = ScrollKeys
+  LET full == e.key \in {FullKeys, MouseKeys, ScrollKeys, PadKeys, MmoKeys}
+      scroll == e.key \in {ScrollKeys, MmoKeys}
       noleds == e.ev \notin {"120013"}
       mouseName == e.name \in {"GXT 4155 Gaming Mouse", "Gaming Mouse Keyboard", "Virtual Mouse", "Razer Mouse"}
       kbdName == e.name \in {"AT Translated Set 2 keyboard", "Gaming Mouse Keyboard", "Ghost keyboard"}
       mousey == (IF scroll THEN 1 ELSE 0) + (IF noleds THEN 1 ELSE 0) + (IF mouseName THEN 1 ELSE 0) >= 2
   IN full /\ (kbdName \/ ~mousey) /\ e.name # "cros_ec"
+
+\* Entry kinds whose class is not a matter of tuning the heuristic: the statement itself lists them ("keyboards, mice with
+\* keyboard-like key maps, buttons, switches") and the repository's example hardware agrees.  For these a wrong class on
+\* either path is a violation of C16 ("only real keyboards ... every other keyboard-like device is"); for the constructed
+\* boundary kinds a difference from Keyboardish stays DRIFT.
+SureKeyboard == {"keyboard", "keyboard-noleds", "virtual-keyboard"}
+SureNotKeyboard == {"gaming-mouse", "power-button", "video-bus", "cros-ec", "virtual-mouse", "mmo-mouse-macro"}
 
 \* exclude patterns and the names they match (glob semantics over the finite universe of names)
 AllNames == {NameOf(Kinds[i]): i \in KindIds}
